@@ -19,4 +19,5 @@ INIT Init
 NEXT Next
 VIEW shview
 INVARIANTS TypeOK RevertNeverFails ReadsAgree HeadAgrees NoOrphanLogs Canon
+PROPERTIES RestartIsNoOp
 CHECK_DEADLOCK FALSE
